@@ -125,6 +125,26 @@ Definition cor_transI (type : Z) (param : Q) (ndim : Z) (field : Q) (hlo hhi : Q
   | _ => None
   end.
 
+(* CovExponential.cpp:96: Legendre spectrum of exp(-nu alpha) on the sphere, nu = scale * 2.995732, normalised *)
+Fixpoint i_spec_exp (fuel : nat) (k : Z) (nu2 : I.type) (a b : I.type) : list I.type :=
+  (* a = sp[k-2], b = sp[k-1]; produces sp[k], sp[k+1], ... *)
+  match fuel with
+  | O => []
+  | S f =>
+      let c := imul (imul (idiv (iZ (2 * k + 1)) (iZ (2 * k - 3)))
+                          (idiv (iadd nu2 (iZ ((k - 2) * (k - 2)))) (iadd nu2 (iZ ((k + 1) * (k + 1)))))) a in
+      c :: i_spec_exp f (k + 1) nu2 b c
+  end.
+Definition i_spectrum_exponential (scale : Q) (n : nat) : list I.type :=
+  let nu := iQ (scale * (2995732 # 1000000)) in
+  let nu2 := imul nu nu in
+  let e := iexp (I.neg (imul nu (iQ gv_pi))) in
+  let s0 := idiv (imul (iQ (1#2)) (iadd (iZ 1) e)) (iadd (iZ 1) nu2) in
+  let s1 := idiv (imul (iQ (3#2)) (isub (iZ 1) e)) (iadd (iZ 4) nu2) in
+  let raw := firstn (S n) (s0 :: s1 :: i_spec_exp (n - 1) 2 nu2 s0 s1) in
+  let tot := fold_left iadd raw (iZ 0) in       (* every coefficient is >= 0: the L1 norm is the sum *)
+  map (fun x => idiv x tot) raw.
+
 (* covariance on the sphere at angular distance alpha (rational, in radians):
    ACovFunc::evalCovOnSphere(alpha, scale, degree).  [sp] = spectrum with degree+1 coefficients (series forms only) *)
 Definition firstn_sum (n : nat) (l : list Q) : Q := fold_left Qplus (firstn n l) 0.
